@@ -45,7 +45,7 @@ Theorem C07_concurrent_counters_unique :
 Proof. exact concurrent_uplinks_counters. Qed.
 (* The quantifier in full - every history AND every interleaving. A history whose events are batches of uplinks of one
    device handled at the same time (any frames, each batch under its own schedule, cut after any number of operations)
-   and submissions of messages, from any state with a data-typed buffer entry, while the session has counters left:
+   - optionally followed by a restart of the server (the output buffer is lost, the tables stay) - and submissions of messages, from any state with a data-typed buffer entry, while the session has counters left:
    over the WHOLE history the FCnt fields of the frames that leave are pairwise different, each lies between the
    stored counter at the start and that counter plus the number of handlers, and the stored uplink counter never
    moves back. *)
